@@ -402,9 +402,11 @@ class DSession:
         rep: pytest.CollectReport | pytest.TestReport,
     ) -> None:
         # Check we haven't already seen this report (from
-        # another worker).
-        if rep.longrepr not in self._failed_collection_errors:
-            self._failed_collection_errors[rep.longrepr] = True
+        # another worker). Every worker sends its own longrepr object, so
+        # compare what they say.
+        key = str(rep.longrepr)
+        if key not in self._failed_collection_errors:
+            self._failed_collection_errors[key] = True
             self.config.hook.pytest_collectreport(report=rep)
             self._handlefailures(rep)
 
